@@ -1,7 +1,9 @@
 import BnpVerif.Model.C15
+import BnpVerif.Props.C01
 /-! C15 property theorems: the reported line number of a format violation does not depend on how
 the entries are cut into chunks, and equals the global zero-based line. -/
 namespace C15
+open C01
 
 /-! ### firstBad is compositional -/
 
@@ -165,6 +167,22 @@ theorem line_number_kline (n marker : Nat) (cp : Bool) (bad : Entry) (o : Nat)
           rw [show b :: r1 = [b] ++ r1 from rfl, validateChunk_right_good n marker cp [b] r1 hr1, ← hb]
           exact hbad
         rw [this]; simp; omega
+
+/-- **C15.readValidate_line** — end to end over the C01 reader model: a FASTQ / two-line FASTA
+file whose entries are `good ++ bad :: rest` (single violation, diagnosed at local line `o`)
+is reported at line `good.length·n + o` for EVERY chunk size `k ≥ 1` and both reader modes. -/
+theorem readValidate_line (n : Nat) (hn : 0 < n) (marker : Nat) (cp : Bool) (mode : Mode) (file : Bytes)
+    (hwf : n ∣ countNL (norm file)) (k : Nat) (hk : 0 < k) (good rest : List Entry) (bad : Entry) (o : Nat)
+    (hE : entriesK n (norm file) = good ++ bad :: rest)
+    (hgood : ∀ e ∈ good, entryOK marker cp e = true) (hrest : ∀ e ∈ rest, entryOK marker cp e = true)
+    (hbad : validateChunk n marker cp [bad] = some o) :
+    readValidate n marker cp mode file k = some (good.length * n + o) := by
+  unfold readValidate
+  have hflat := entries_chunks_kLine n hn mode file hwf k hk
+  have := line_number_kline n marker cp bad o hbad
+    ((readAll (Fmt.kLine n) true mode file k).map (entriesOf n)) good rest 0
+    (by unfold entriesOf; rw [hflat, hE]) hgood hrest
+  simpa using this
 
 /-! ### delimited columns -/
 
